@@ -283,6 +283,9 @@ def run(ctx: Ctx) -> None:
     rule_pairing(ctx)
     rule_driver(ctx)
     rule_prefilter(ctx)
+    from ..rules_par import rule_ieee
+
+    ctx.floor("C11.IEEE", rule_ieee(ctx, "C11.IEEE", files=(CB,)), 4)
     check_function_effects(ctx, "C11.EFFECTS", f"{CB}::{K}.cost_volume_aggregation")
     n = rule_stateless(ctx, "C11.STATELESS", files=[CB])
     ctx.floor("C11.STATELESS", n, 2)
